@@ -129,8 +129,9 @@ class Ctx:
             "wall_s": round(time.time() - self.t0, 3),
             "violations": len(new_v),
         }
-        os.makedirs(os.path.join(VERIF, "evidence"), exist_ok=True)
-        evp = os.path.join(VERIF, "evidence", self.prop + ".json")
+        evdir = os.environ.get("VERIF_EVIDENCE_DIR", os.path.join(VERIF, "evidence"))
+        os.makedirs(evdir, exist_ok=True)
+        evp = os.path.join(evdir, self.prop + ".json")
         with open(evp + ".tmp", "w") as fh:
             json.dump(ev, fh, indent=1)
         os.replace(evp + ".tmp", evp)
@@ -138,7 +139,7 @@ class Ctx:
             st = "ok" if not r.violations else f"{len(r.violations)} violation(s)"
             print(f"  {r.rid:8s} {r.instances:5d} instances  {st:18s} {r.text[:90]}")
         if new_v:
-            rdir = os.path.join(VERIF, "evidence", "replay")
+            rdir = os.path.join(evdir, "replay")
             os.makedirs(rdir, exist_ok=True)
             for i, v in enumerate(new_v):
                 path = os.path.join(rdir, f"{self.prop}-{i}.json")
